@@ -18,7 +18,7 @@ type c03 struct{}
 func (c03) ID() string    { return "C03" }
 func (c03) Level() string { return "exploration" }
 func (c03) Rule() string {
-	return "cases = (constraint set, cost function, entry point): CNF from T2 (<=2 clauses), S3 (<=2 clauses, 3 thorough) and S4 pairs, cardinality/PB sets (singles, card pairs, PB pairs over 3 variables, decreasing-coefficient family) x every cost function over a non-empty set of distinct variables, either polarity, weights nil (all 1) or every vector over {0,1,2} (quick) / {0..3} (thorough), negative weights through the OPB front end ([-2..2]), and no cost function at all; plus OC, a seeded catalogue of covering-like CNFs over 8..12 variables with a cost function over all variables with distinct weights and all one-edit neighbours (3..8 successive improvements per run) x {Optimal(nil), Optimal(channel), Minimize} x heuristic choice list (<=1 deviation across all the Solve calls of the optimisation loop). Oracle: truth-table minimum: Unsat iff no model; model satisfies all constraints; reported cost == cost(model) == minimum; stream of results has strictly decreasing true costs. Non-trivial = the optimisation loop made at least one improving step (two or more results) or proved Unsat after search."
+	return "cases = (constraint set, cost function, entry point): CNF from T2 (<=2 clauses), S3 (<=2 clauses, 3 thorough) and S4 pairs, cardinality/PB sets (singles, card pairs, PB pairs over 3 variables, decreasing-coefficient family) x every cost function over a non-empty set of distinct variables, either polarity, weights nil (all 1) or every vector over {0,1,2} (quick) / {0..3} (thorough), negative weights through the OPB front end ([-2..2]), and no cost function at all; plus OC, a seeded catalogue of covering-like CNFs over 8..12 variables with a cost function over all variables with distinct weights and all one-edit neighbours (3..8 successive improvements per run), and MO, a seeded catalogue of weighted PB problems with a weighted cost function over 8..12 variables with regression instances and all one-edit neighbours, x {Optimal(nil), Optimal(channel), Minimize} x heuristic choice list (<=1 deviation across all the Solve calls of the optimisation loop). Oracle: truth-table minimum: Unsat iff no model; model satisfies all constraints; reported cost == cost(model) == minimum; stream of results has strictly decreasing true costs. Non-trivial = the optimisation loop made at least one improving step (two or more results) or proved Unsat after search."
 }
 func (c03) Assumptions() []string {
 	return []string{"truth-table reference is correct", "Minimize's -1 is read as Unsat only when -1 is not the true optimum (the integer-returning entry point cannot distinguish them)", "weights outside [-2..3] are not covered"}
@@ -177,6 +177,24 @@ func (c03) Enumerate(tier string, seed int64, yield func(string, core.Case) bool
 					return
 				}
 			}
+		}
+	}
+	// MO: seeded catalogue of optimisation problems with weighted PB constraints and a weighted cost function over
+	// 8..12 variables, with the regression instances and all one-edit neighbours (shared with C14)
+	{
+		nseeds := 300
+		if thorough {
+			nseeds = 2500
+		}
+		mi := 0
+		if !enumOptCatalogue(seed, nseeds, func(name string, p Prob) bool {
+			mi++
+			cost := [][2][]int{{p.CostL, p.CostW}}
+			q := p
+			q.CostL, q.CostW = nil, nil
+			return emit(name, q, cost, 0, c03Modes[mi%3:mi%3+1])
+		}) {
+			return
 		}
 	}
 	// OPB front end with coefficients of either sign in the cost function
